@@ -107,5 +107,29 @@ _MORE = {
     "C19": _HIST,
     "C20": _HIST + " Mutation attempts include special-method names (__eq__, __int__, __hash__, __members__).",
 }
+_WKT = (" The classes betterproto bundles for google.protobuf (Struct family, FieldMask, Any, Timestamp, Duration, wrappers, FileDescriptorSet) are "
+        "exercised as top-level messages against google.protobuf's own modules, in the std and the pydantic library (vf/props/_wkt.py).")
+_MORE4 = {
+    "C01": _WKT + " Aware datetimes carry drawn UTC offsets.",
+    "C02": _WKT + " Decoding goes through parse / load / load(size) / load(SIZE_DELIMITED); packed fields are split into chunks including empty ones.",
+    "C03": " A fixed service-name matrix (leading underscores / digits, keywords, upper-case runs) checks the generated Stub / Base pairs and their routes.",
+    "C06": " A message received empty through every decoding entry point (parse, FromString, load, load(size=0), load(SIZE_DELIMITED), from_dict in both forms, from_json, from_pydict) and then embedded as a plain sub-message is enumerated.",
+    "C07": " A corpus message whose groups and members are not lower_snake_case (camelCase / capitalised / double-underscore groups, members starting with an underscore, upper-case, keyword) is part of the variants.",
+    "C08": " A copy is taken between two payloads; unknown groups nested up to 90 levels are unknown fields like any other.",
+    "C09": _WKT,
+    "C10": " Streams are also read through an object that offers read() only.",
+    "C11": " Request streams are lists / tuples / generators / async iterators, also repeating one message object; the grammar draws deprecated rpcs.",
+    "C12": " Items may have a False truth value; a stream-stream rpc over grpclib's test channel acts as a receiver whose caller is cancelled / abandons the call.",
+    "C13": " Type names that do not start with a capital (also in a package-less file) and the pydantic_dataclasses output are covered by all-at-once schemas.",
+    "C14": " serialized_on_wire of the message and of every sub-message, taken before the first encoding, is part of the observed state; dense values of the container-heavy messages are observed at least twice.",
+    "C15": " Instants whose local wall clock reads the epoch / a day boundary under a non-zero offset are drawn deliberately.",
+    "C16": " load_varint is read from buffered readers with tiny buffers (varints straddling the buffer boundary), one-byte-per-read streams and read()-only objects.",
+    "C17": " Tags with bits above bit 31 must not touch known fields; a text payload that is not valid UTF-8 is rejected or re-encoded exactly as received.",
+    "C18": _WKT + " Hypothesis value trees over the kitchen-sink corpus compiled under every option combination must give identical bytes / JSON / decoded values.",
+    "C19": " to_pydict / from_pydict use the same key mapping.",
+    "C20": " Members are pickled with every protocol (alone and inside containers); the member table handed out by __members__ must be read-only.",
+}
 for _pid, _t in _MORE.items():
+    CHECKS[_pid]["text"] += _t
+for _pid, _t in _MORE4.items():
     CHECKS[_pid]["text"] += _t
